@@ -142,7 +142,7 @@ pub const F_EOPEN: u32 = 1 << 11; // hard: open() fails (EMFILE / EACCES / EIO /
 pub const F_ZERO_WRITE: u32 = 1 << 12; // hard: write() accepts nothing (returns 0), once or from then on
 pub const F_HARD: u32 = F_EIO_WRITE | F_ENOSPC_WRITE | F_EIO_READ | F_TRUNC_READ | F_BITFLIP_READ | F_EOPEN | F_ZERO_WRITE;
 
-pub const FAULT_NAMES: [(&str, u32); 14] = [
+pub const FAULT_NAMES: [(&str, u32); 15] = [
     ("short_write", F_SHORT_WRITE),
     ("eintr_write", F_EINTR_WRITE),
     ("short_read", F_SHORT_READ),
@@ -157,6 +157,7 @@ pub const FAULT_NAMES: [(&str, u32); 14] = [
     ("eopen", F_EOPEN),
     ("zero_write", F_ZERO_WRITE),
     ("spurious_wake", 0),
+    ("wall_clock_step_back", 0),
 ];
 
 #[derive(Clone, Debug, serde::Serialize, serde::Deserialize, PartialEq)]
@@ -220,6 +221,12 @@ pub struct SimCfg {
     /// every correct waiter re-checks its predicate)
     #[serde(default)]
     pub spurious_wake_rate: f64,
+    /// probability that a read of the wall clock (CLOCK_REALTIME) finds it stepped backwards by `wall_step_ns`
+    /// (an operator or a time daemon setting the clock: legal; the monotonic clock is never stepped)
+    #[serde(default)]
+    pub wall_step_rate: f64,
+    #[serde(default)]
+    pub wall_step_ns: u64,
 }
 
 impl Default for SimCfg {
@@ -245,6 +252,8 @@ impl Default for SimCfg {
             no_sticky_faults: false,
             pipe_like_paths: vec![],
             spurious_wake_rate: 0.0,
+            wall_step_rate: 0.0,
+            wall_step_ns: 0,
         }
     }
 }
@@ -423,6 +432,8 @@ pub struct Sim {
     io_idx: u64,
     open_idx: u64,
     clock_idx: u64,
+    /// how far the wall clock has been stepped back so far (fault wall_clock_step_back)
+    wall_back_ns: u64,
     probe_idx: u64,
     hard_faults: u32,
     /// paths on which a sticky write fault fired: every further write fails with the same errno (the disk stays full / broken)
@@ -890,6 +901,7 @@ pub fn start(cfg: SimCfg, dec: Decider, fatal_fd: i32) {
         io_idx: 0,
         open_idx: 0,
         clock_idx: 0,
+        wall_back_ns: 0,
         probe_idx: 0,
         hard_faults: 0,
         broken_write_paths: BTreeMap::new(),
@@ -1274,7 +1286,7 @@ pub unsafe fn hook_futex(addr: *const AtomicU32, op: i32, val: u32, timeout: *co
                 if cmd == libc::FUTEX_WAIT {
                     Some(s.clock_ns + ns) // relative
                 } else if op & libc::FUTEX_CLOCK_REALTIME != 0 {
-                    Some(ns.saturating_sub(REALTIME_EPOCH_NS))
+                    Some(ns.saturating_sub(REALTIME_EPOCH_NS.saturating_sub(s.wall_back_ns)))
                 } else {
                     Some(ns.saturating_sub(MONO_BASE_NS))
                 }
@@ -1408,10 +1420,16 @@ pub fn hook_clock(clk: i32) -> Option<u64> {
     if !s.quiet {
         s.sched_point(me, Pt::Clock);
     }
-    let base = match clk {
-        libc::CLOCK_REALTIME | libc::CLOCK_REALTIME_COARSE => REALTIME_EPOCH_NS,
-        _ => MONO_BASE_NS,
-    };
+    let realtime = matches!(clk, libc::CLOCK_REALTIME | libc::CLOCK_REALTIME_COARSE);
+    if realtime && !s.quiet && s.cfg.wall_step_rate > 0.0 {
+        let rate = s.cfg.wall_step_rate;
+        let step = s.cfg.wall_step_ns;
+        if let Some((_k, arg)) = s.dec.fault_at("wall", idx, |r| if r.chance(rate) { Some(("wall_clock_step_back", step)) } else { None }) {
+            s.wall_back_ns += arg;
+            s.count_fault("wall_clock_step_back");
+        }
+    }
+    let base = if realtime { REALTIME_EPOCH_NS.saturating_sub(s.wall_back_ns) } else { MONO_BASE_NS };
     Some(base + v)
 }
 
